@@ -1353,3 +1353,32 @@ example : C01.Realises (NewLineConf 0 40 1500000000) (C01.lineCum 0 40 150000000
     by decide, by decide, by decide⟩
 
 end Pandora.Props.C04
+
+namespace Pandora.Props.C04
+open Pandora.Go.C04 Pandora.Model.C04 Pandora.Proofs.C04
+open Pandora Pandora.Gen.Schedule Pandora.Bridge.Schedule
+
+/-- **once profile → waiter**: every accepted `once(times)` is the leaf whose `times` operations all sit at the start instant; the
+started schedule answers call `j < times` with `t0`, and a `Wait` that was handed it returns true not before `t0`. -/
+theorem C04_once_no_early (n : ℤ) (h : OnceConfig_valid n) (t0 : ℤ) (nows : List ℤ) (j : ℕ) (hj : j < nows.length)
+    (hjn : (j : ℤ) < n) :
+    NewOnceConf n = Sched.doAt 0 n (fun _ => 0) ∧
+    ∃ rs, C01.startAndDrain 0 n (fun _ => 0) t0 nows = Except.ok rs ∧ rs[j]? = some (t0, true) ∧
+      ∀ (v : Variant) (w : Waiter) (e : Env), EnvOK e → w.lastNow ≤ e.now → e.tok = some t0 →
+        (waitV v w e).ok = true → t0 ≤ e.ret := by
+  obtain ⟨h1, h2⟩ := C01.C01_once n h
+  have hn : ¬ n ≤ (j : ℤ) := by omega
+  refine ⟨h1, _, h2 t0 nows, by simp [hj, hn], ?_⟩
+  intro v w e hok hinv htok hwait
+  obtain ⟨next, e1, e2⟩ := C04_no_early_wait v w e hok hinv hwait
+  rw [htok] at e1
+  injection e1 with e1
+  omega
+
+-- non-vacuity: once(5), started at 7, call 3; a fresh Waiter that reads the clock at 7
+example : OnceConfig_valid 5 ∧ (3 : ℕ) < [0, 0, 0, 0].length ∧ ((3 : ℕ) : ℤ) < 5 ∧
+    EnvOK { tok := some 7, now := 7, arm := 7, ret := 7 } ∧ Waiter.init.lastNow ≤ 7 ∧
+    (waitV .fresh Waiter.init { tok := some 7, now := 7, arm := 7, ret := 7 }).ok = true := by
+  refine ⟨by unfold OnceConfig_valid; norm_num, by decide, by decide, by decide, by decide, by decide⟩
+
+end Pandora.Props.C04
